@@ -220,6 +220,156 @@ theorem lps_makeLPsStore_listing : Gen.SkDet.lps_makeLPsStore =
   ["func makeLPsStore(sb *collections.SchemaBuilder, cdc codec.BinaryCodec) LPs",
    "  return LPs{byRollAppDenom: collections.NewKeySet[collections.Triple[string, string, uint64]](sb, LPsByRollAppDenomPrefix, \"byRollAppDenom\", collections.TripleKeyCodec[string, string, uint64](collections.StringKey, collections.StringKey, collections.Uint64Key)), byID: collections.NewMap[uint64, types.OnDemandLPRecord](sb, LPsByIDPrefix, \"byID\", collections.Uint64Key, codec.CollValue[types.OnDemandLPRecord](cdc)), byAddr: collections.NewKeySet[collections.Pair[string, uint64]](sb, LPsByAddrPrefix, \"byAddr\", collections.PairKeyCodec[string, uint64](collections.StringKey, collections.Uint64Key)), nextID: collections.NewSequence(sb, LPsNextIDPrefix, \"nextID\")}"] := rfl
 
+/-- `msgServer.TryFulfillOnDemand` -/
+theorem ms_msgServer_TryFulfillOnDemand_listing : Gen.SkDet.ms_msgServer_TryFulfillOnDemand =
+  ["func (m msgServer) TryFulfillOnDemand(goCtx context.Context, msg *types.MsgTryFulfillOnDemand) (*types.MsgTryFulfillOnDemandResponse, error)",
+   "  err := msg.ValidateBasic()",
+   "  if err != nil",
+   "    return nil, err",
+   "  return &types.MsgTryFulfillOnDemandResponse{}, m.Keeper.FulfillByOnDemandLP(ctx, msg.OrderId, msg.Rng)"] := rfl
+
+/-- `Keeper.UpdateDistrRecords` -/
+theorem str_Keeper_UpdateDistrRecords_listing : Gen.SkDet.str_Keeper_UpdateDistrRecords =
+  ["func (k Keeper) UpdateDistrRecords(ctx sdk.Context, streamId uint64, records []types.DistrRecord) error",
+   "  recordsMap := make(map[uint64]types.DistrRecord)",
+   "  stream, err := k.GetStreamByID(ctx, streamId)",
+   "  if err != nil",
+   "    return err",
+   "  err = k.validateGauges(ctx, records)",
+   "  if err != nil",
+   "    return err",
+   "  for _, existingRecord := range stream.DistributeTo.Records",
+   "    recordsMap[existingRecord.GaugeId] = existingRecord",
+   "  for _, record := range records",
+   "    recordsMap[record.GaugeId] = record",
+   "  newRecords := []types.DistrRecord{}",
+   "  for _, val := range recordsMap",
+   "    if !val.Weight.Equal(math.ZeroInt())",
+   "      newRecords = append(newRecords, val)",
+   "  sort.SliceStable(newRecords, func#1)",
+   "    func#1 (i, j int) bool",
+   "      return newRecords[i].GaugeId < newRecords[j].GaugeId",
+   "  distrInfo, err := k.NewDistrInfo(ctx, newRecords)",
+   "  if err != nil",
+   "    return err",
+   "  stream.DistributeTo = distrInfo",
+   "  err = k.SetStream(ctx, stream)",
+   "  if err != nil",
+   "    return err",
+   "  return nil"] := rfl
+
+/-- `mapKeysToSlice` -/
+theorem hf_mapKeysToSlice_listing : Gen.SkDet.hf_mapKeysToSlice =
+  ["func mapKeysToSlice(m map[string]struct{}) []string",
+   "  keys := make([]string, 0, len(m))",
+   "  for k := range m",
+   "    keys = append(keys, k)",
+   "  sort.Strings(keys)",
+   "  return keys"] := rfl
+
+/-- `Keeper.InitializeAllLocks` -/
+theorem lk_Keeper_InitializeAllLocks_listing : Gen.SkDet.lk_Keeper_InitializeAllLocks =
+  ["func (k Keeper) InitializeAllLocks(ctx sdk.Context, locks []types.PeriodLock) error",
+   "  accumulationStoreEntries := make(map[string]map[time.Duration]math.Int)",
+   "  denoms := []string{}",
+   "  for i, lock := range locks",
+   "    if i%25000 == 0",
+   "      msg := fmt.Sprintf(\"Reset %d lock refs, cur lock ID %d\", i, lock.ID)",
+   "    err := k.setLockAndAddLockRefs(ctx, lock)",
+   "    if err != nil",
+   "      return err",
+   "    for _, coin := range lock.Coins",
+   "      var curDurationMap map[time.Duration]math.Int",
+   "      durationMap, ok := accumulationStoreEntries[coin.Denom]",
+   "      if ok",
+   "        curDurationMap = durationMap",
+   "        newAmt := coin.Amount",
+   "        curAmt, ok := durationMap[lock.Duration]",
+   "        if ok",
+   "          newAmt = newAmt.Add(curAmt)",
+   "        curDurationMap[lock.Duration] = newAmt",
+   "      else",
+   "        denoms = append(denoms, coin.Denom)",
+   "        curDurationMap = map[time.Duration]math.Int{lock.Duration: coin.Amount}",
+   "      accumulationStoreEntries[coin.Denom] = curDurationMap",
+   "  sort.Strings(denoms)",
+   "  for _, denom := range denoms",
+   "    curDurationMap := accumulationStoreEntries[denom]",
+   "    durations := make([]time.Duration, 0, len(curDurationMap))",
+   "    for duration := range curDurationMap",
+   "      durations = append(durations, duration)",
+   "    sort.Slice(durations, func#1)",
+   "      func#1 (i, j int) bool",
+   "        return durations[i] < durations[j]",
+   "    msg := fmt.Sprintf(\"Setting accumulation entries for locks for %s, there are %d distinct durations\", denom, len(durations))",
+   "    for _, d := range durations",
+   "      amt := curDurationMap[d]",
+   "      k.accumulationStore(ctx, denom).Increase(accumulationKey(d), amt)",
+   "  return nil"] := rfl
+
+/-- `GetSortedStringKeys` -/
+theorem dmap_GetSortedStringKeys_listing : Gen.SkDet.dmap_GetSortedStringKeys =
+  ["func GetSortedStringKeys[V any](m map[string]V) []string",
+   "  keys := make([]string, 0, len(m))",
+   "  for k := range m",
+   "    keys = append(keys, k)",
+   "  sort.Slice(keys, func#1)",
+   "    func#1 (i, j int) bool",
+   "      return keys[i] < keys[j]",
+   "  return keys"] := rfl
+
+/-- `ReverseResolvedDymNameAddress.String` -/
+theorem rra_ReverseResolvedDymNameAddress_String_listing : Gen.SkDet.rra_ReverseResolvedDymNameAddress_String =
+  ["func (m ReverseResolvedDymNameAddress) String() string",
+   "  var sb strings.Builder",
+   "  if m.SubName != \"\"",
+   "    sb.WriteString(m.SubName)",
+   "    sb.WriteString(\".\")",
+   "  sb.WriteString(m.Name)",
+   "  sb.WriteString(\"@\")",
+   "  sb.WriteString(m.ChainIdOrAlias)",
+   "  return sb.String()"] := rfl
+
+/-- `ReverseResolvedDymNameAddresses.Distinct` -/
+theorem rra_ReverseResolvedDymNameAddresses_Distinct_listing : Gen.SkDet.rra_ReverseResolvedDymNameAddresses_Distinct =
+  ["func (m ReverseResolvedDymNameAddresses) Distinct() (distinct ReverseResolvedDymNameAddresses)",
+   "  if len(m) < 1",
+   "    return m",
+   "  unique := make(map[string]ReverseResolvedDymNameAddress)",
+   "  defer func#1()",
+   "    func#1 ()",
+   "      distinct.Sort()",
+   "  for _, addr := range m",
+   "    unique[addr.String()] = addr",
+   "  for _, addr := range unique",
+   "    distinct = append(distinct, addr)",
+   "  return"] := rfl
+
+/-- `ReverseResolvedDymNameAddresses.Sort` -/
+theorem rra_ReverseResolvedDymNameAddresses_Sort_listing : Gen.SkDet.rra_ReverseResolvedDymNameAddresses_Sort =
+  ["func (m ReverseResolvedDymNameAddresses) Sort()",
+   "  if len(m) > 0",
+   "    sort.Slice(m, func#1)",
+   "      func#1 (i, j int) bool",
+   "        addr1 := m[i].String()",
+   "        addr2 := m[j].String()",
+   "        if len(addr1) < len(addr2)",
+   "          return true",
+   "        if len(addr1) > len(addr2)",
+   "          return false",
+   "        return strings.Compare(addr1, addr2) < 0"] := rfl
+
+/-- `ModuleAccountAddrs` -/
+theorem mod_ModuleAccountAddrs_listing : Gen.SkDet.mod_ModuleAccountAddrs =
+  ["func ModuleAccountAddrs() map[string]bool",
+   "  modAccAddrs := make(map[string]bool)",
+   "  for acc := range maccPerms",
+   "    modAccAddrs[authtypes.NewModuleAddress(acc).String()] = true",
+   "  modAccAddrs[authtypes.NewModuleAddress(streamermoduletypes.ModuleName).String()] = false",
+   "  modAccAddrs[authtypes.NewModuleAddress(txfeestypes.ModuleName).String()] = false",
+   "  modAccAddrs[authtypes.NewModuleAddress(irotypes.ModuleName).String()] = false",
+   "  return modAccAddrs"] := rfl
+
 /-- `every function with a body in the listed files, sorted per package` -/
 theorem inventory_listing : Gen.SkDet.inventory =
   ["cache_?_Get",
@@ -239,6 +389,15 @@ theorem inventory_listing : Gen.SkDet.inventory =
    "lps_LPs_GetByAddr",
    "lps_LPs_GetOrderCompatibleLPs",
    "lps_LPs_Set",
-   "lps_makeLPsStore"] := rfl
+   "lps_makeLPsStore",
+   "ms_msgServer_TryFulfillOnDemand",
+   "str_Keeper_UpdateDistrRecords",
+   "hf_mapKeysToSlice",
+   "lk_Keeper_InitializeAllLocks",
+   "dmap_GetSortedStringKeys",
+   "rra_ReverseResolvedDymNameAddress_String",
+   "rra_ReverseResolvedDymNameAddresses_Distinct",
+   "rra_ReverseResolvedDymNameAddresses_Sort",
+   "mod_ModuleAccountAddrs"] := rfl
 
 end DymVerif.GenEqSk.Det
